@@ -133,3 +133,20 @@ Theorem prox_newton_iteration_keeps_model_fit_consistent_fixpoint :
   Cons n X w' c Xw' /\ length w' = length w.
 Proof. exact pn_iteration_fixpoint_keeps_consistency. Qed.
 Print Assumptions prox_newton_iteration_keeps_model_fit_consistent_fixpoint.
+
+(* ProxNewton, closed over the regenerated kernels: the skeleton of ProxNewton._solve instantiated with the translated
+   direction / line-search / gradient kernels (no intercept, either working-set strategy) returns Xw = X w + c from any
+   consistent start -- any datafit, any penalty, any working-set selection returning distinct non-negative indices.  The same
+   kernel record (Skel/ProxNewtonKernels.v) runs on Q against the real ProxNewton._solve in the correspondence. *)
+Require Import SK.Skel.ProxNewton SK.Skel.ProxNewtonKernels SK.Skel.ProxNewtonGen SK.Skel.Generic.
+Theorem prox_newton_solve_returns_consistent_fit :
+  forall (raw_grad raw_hessian : list R -> list R -> res (list R)) (df_value : list R -> list R -> res R)
+    (prox_1d : R -> R -> Z -> res R) (pen_value : list R -> res (Ext R)) (subdiff : list R -> list R -> list Z -> res (list (Ext R)))
+    (gsupp : list R -> res (list bool)) (topk : list (Ext R) -> nat -> list Z) (n : nat) (X : list (list R)) (c y : list R) (fixp : bool),
+  wf_X n X -> mrows X = Z.of_nat n ->
+  (forall opt k, NoDup (topk opt k) /\ Forall (fun j => (0 <= j)%Z) (topk opt k)) ->
+  forall (cfg : @pn_config R) w0 Xw0 out, length w0 = length X -> Cons n X w0 c Xw0 ->
+  pn_solve cfg (pn_gen_kernels raw_grad raw_hessian df_value prox_1d pen_value subdiff gsupp topk X y false fixp) (Some w0) (Some Xw0) = Ok out ->
+  Cons n X (pn_w (g_s out)) c (pn_Xw (g_s out)) /\ length (pn_w (g_s out)) = length X.
+Proof. exact prox_newton_returns_consistent_fit. Qed.
+Print Assumptions prox_newton_solve_returns_consistent_fit.
